@@ -52,6 +52,11 @@ def generate(rng, index: int, tier: str) -> dict:
             subs.append({"name": f"ac{ac}s", "target": ["ac", ac], "method": "subscribe_ac_state"})
         if rng.random() < 0.25:
             subs.append({"name": f"ac{ac}R", "target": ["ac", ac], "method": rng.choice(["subscribe", "subscribe_ac_state"]), "raises": True})
+        if rng.random() < 0.3:
+            # one callable holding both roles on the same air-conditioner (either order); giving up one role later must not
+            # cost it the other
+            both = [{"name": f"ac{ac}B", "target": ["ac", ac], "method": "subscribe"}, {"name": f"ac{ac}B", "target": ["ac", ac], "method": "subscribe_ac_state"}]
+            subs += both if rng.random() < 0.5 else both[::-1]
     for z in inst["zones"]:
         if rng.random() < 0.6:
             subs.append({"name": f"z{z['zone']}", "target": ["zone", z["zone"]], "method": "subscribe", "sub_yields": rng.choice([0, 0, 1])})
@@ -86,7 +91,9 @@ def generate(rng, index: int, tier: str) -> dict:
         if not names:
             break
         nm = rng.choice(names)
-        s0 = next(s for s in subs if s["name"] == nm)
+        if any(x.endswith("B") for x in names) and rng.random() < 0.5:
+            nm = rng.choice([x for x in names if x.endswith("B")])
+        s0 = rng.choice([s for s in subs if s["name"] == nm])
         un = {"subscribe": "unsubscribe", "subscribe_ac_state": "unsubscribe_ac_state"}[s0["method"]]
         t = 6.0 + 0.5 * rng.randrange(n) + 0.25
         tl.append({"at": t, "op": "user.subscribe", "name": nm, "target": s0["target"], "method": un})
